@@ -28,6 +28,7 @@ PROPS = {
                         "points closer than 2*r_leaf to the tolerance band are not decided (reported as rim)"],
     },
     "C03": {
+        "deadline": {"quick": 900, "thorough": 2700},
         "runs": {
             "quick": [{"harness": "boolgp", "args": ["--scope", "S1", "--nmax", 4]},
                       {"harness": "boolgp", "args": ["--scope", "S1", "--nmax", 4, "--k", 8, "--board", "aligned"]},
